@@ -2505,8 +2505,11 @@ func (d *decoderSimpleBytes) kMap(f *decFnInfo, rv reflect.Value) {
 					rvSetDirect(rvv, reflect.New(vElem))
 				}
 				d.decode(rv2i(rvv))
-			} else {
+			} else if rvv.CanAddr() {
 				d.decode(rv2i(rvAddr(rvv, ti.tielem.ptr)))
+			} else {
+
+				d.decodeValueNoCheckNil(rvv, valFn)
 			}
 		} else {
 			d.decodeValueNoCheckNil(rvv, valFn)
@@ -6299,8 +6302,11 @@ func (d *decoderSimpleIO) kMap(f *decFnInfo, rv reflect.Value) {
 					rvSetDirect(rvv, reflect.New(vElem))
 				}
 				d.decode(rv2i(rvv))
-			} else {
+			} else if rvv.CanAddr() {
 				d.decode(rv2i(rvAddr(rvv, ti.tielem.ptr)))
+			} else {
+
+				d.decodeValueNoCheckNil(rvv, valFn)
 			}
 		} else {
 			d.decodeValueNoCheckNil(rvv, valFn)
